@@ -369,6 +369,12 @@ class TopoRunner:
             self.elem(o["s"], persistent=True).disconnect_interface(self.elem(o["i"]))
             return none
         if op == "AddFacility":
+            if o.get("ifs"):
+                # the multi-interface form: (name, labels, capacities) per interface
+                kw = self._rp_kwargs(o.get("rp"))
+                t.add_facility(name=conc_name(o["name"]), site=o["site"], node_id=self._sid() if sub else None,
+                               interfaces=[(conc_name(i), kw.get("labels"), kw.get("capacities")) for i in o["ifs"]])
+                return none
             t.add_facility(name=conc_name(o["name"]), site=o["site"], node_id=self._sid() if sub else None,
                            **self._rp_kwargs(o.get("rp")), **self._bad_kwargs(o, "labels"))
             return none
